@@ -541,7 +541,14 @@ def check_case(sess, case):
                 ref[op] = fn(g_, _X(kkf, pick(v), None, pick(times), pick(col), pick(sub), None))
             except Exception as ex: ref[op] = _Raised(ex)
     has_null_key = (not big) and any(x is None for x in case["keys"])
+    # one more spelling for reductions: the caller keeps ONE boolean buffer and refills it in place between two calls on the same grouping object (first another selection, then
+    # this one): the second call must see the buffer's current content (nothing may be remembered per mask OBJECT)
+    case_masks = list(case["masks"])
+    if fam == "red" and not big and n >= 2 and sel == sorted(set(sel)) and len(sel) < n and case["keyrep"] != "series":
+        masks = masks + [("bufreuse", [i in set(sel) for i in range(n)])]; case_masks.append(["bool", [i in set(sel) for i in range(n)], "one buffer refilled in place between two calls on the same object"])
     for mi, mask in enumerate(masks):
+        reuse = mask[0] == "bufreuse"
+        if reuse: mask = ("bool", mask[1])
         kind_m = {"boolarr": "bool", "posarr": "pos"}.get(mask[0], mask[0])
         if fam == "kern" and kind_m != "bool": continue          # kernel-level functions: boolean masks are their whole interface
         idx = pd.RangeIndex(IDX0, IDX0 + n) if (kind_m == "series" or case["keyrep"] == "series") else None
@@ -551,7 +558,7 @@ def check_case(sess, case):
         elif mask[0] == "pos": m = np.array(mask[1], dtype=np.int64)
         else: m = mask[1]
         for op, (fn, kind) in ops.items():
-            c = dict(case, masks=[case["masks"][mi]], op=op); sess.current_case = c; fname = _fn_name(op)
+            c = dict(case, masks=[case_masks[mi]], op=op); sess.current_case = c; fname = _fn_name(op)
             if kind == "rowsel" and has_null_key: continue       # group-sorted output of non-reducing functions with null keys: C06's finding, not a mask matter
             accepted = kind_m in ACCEPTS_OP.get(op, ACCEPTS.get(fam, ALL_KINDS))
             calls += 1
@@ -562,6 +569,11 @@ def check_case(sess, case):
                         if gb is None: gb = _build_gb(k, case["keyrep"], case.get("blocks"), case["sort"], n, idx)
                         g_, kk = gb
                     x = _X(kk, _vrep(v, idx, case.get("vblocks")), m, times, _rep(col, idx) if idx is not None else col, sub, idx)
+                    if reuse:
+                        m[:] = ~np.array(mask[1], dtype=bool)
+                        try: fn(g_, x)
+                        except Exception: pass
+                        m[:] = np.array(mask[1], dtype=bool)
                     got = fn(g_, x)
             except Exception as ex:
                 if not accepted: sess.evals["c05.kind_rejected"] += 1; continue      # the operation does not accept this mask kind and says so
